@@ -280,11 +280,18 @@ def run_check(H, tier, seed, workers=None):
     missing_claims = [c for c in getattr(H, 'CLAIMS', {})
                       if claim_counts.get(c, 0) == 0
                       and c not in getattr(H, 'OPTIONAL_CLAIMS', ())]
+    notes = []
     if ok and missing_goals:
-        harness_problems.append('reachability goals not witnessed: %s'
-                                % missing_goals)
+        msg = 'reachability goals not witnessed: %s' % missing_goals
+        # after a budget cut the witnesses may simply not have been reached
+        (harness_problems if exhaustive else notes).append(msg)
     if ok and missing_claims:
-        harness_problems.append('claims never reached: %s' % missing_claims)
+        msg = 'claims never reached: %s' % missing_claims
+        (harness_problems if exhaustive else notes).append(msg)
+    if ok and not exhaustive and not errors:
+        notes.append('budget cut: %d open alternatives left unexplored '
+                     '(exhaustive=false in the evidence)'
+                     % stats.get('open_alternatives', 0))
     if stats.get('undecided'):
         harness_problems.append('%d solver queries undecided'
                                 % stats['undecided'])
@@ -330,6 +337,7 @@ def run_check(H, tier, seed, workers=None):
                                  paths=r['paths_with_this_signature'])
                             for k, r in known_hits],
             harness_problems=harness_problems,
+            notes=notes,
             reports=reports,
             explanation=(
                 'states = decision-tree nodes created (solver-decided branch '
@@ -372,6 +380,8 @@ def run_check(H, tier, seed, workers=None):
         print('VIOLATION property=%s replay=%s' % (prop, path))
     for p in harness_problems:
         print('HARNESS-PROBLEM property=%s %s' % (prop, p))
+    for n in notes:
+        print('NOTE property=%s %s' % (prop, n))
     if violations:
         return 1
     if errors or harness_problems:
